@@ -202,20 +202,20 @@ Definition pair_class (x : c14_input) (ip op : str) : option c14_class :=
   match (if ci_eval x then None else finding_class_C15 im qi) with
   | Some _ => Some K14_input_lookup
   | None =>
-    match rw_finding_class_C15 om qo with
+    match rw_finding_class_at [0] om qo with
     | Some _ => Some K14_output_location
     | None =>
-      match (if ci_eval x then None else resolve qi im), resolve qo om with
+      match (if ci_eval x then None else resolve_at [1] qi im), resolve_at [0] qo om with
       | Some (_, src), Some (_, dst) =>
         if is_parg src && negb (is_parg dst) then Some K14_arg_into_statement
         else if negb (is_parg src) && is_parg dst then Some K14_statement_into_argument
         else if (match ci_wrap x, src with Some _, PStmt (SAssign _ _) => true | _, _ => false end)
              then Some K14_wrap_without_annotation
-        else if negb (is_parg dst) && existsb (stmt_exists (is_parent_func qo)) (annotate om)
+        else if negb (is_parg dst) && existsb (stmt_exists (is_parent_func qo)) (annotate_at [0] om)
              then Some K14_parent_function
         else None
       | _, Some (_, dst) =>
-        if ci_eval x && negb (is_parg dst) && existsb (stmt_exists (is_parent_func qo)) (annotate om)
+        if ci_eval x && negb (is_parg dst) && existsb (stmt_exists (is_parent_func qo)) (annotate_at [0] om)
         then Some K14_parent_function else None
       | _, None => None
       end
@@ -246,6 +246,61 @@ Definition finding_class_C14 (x : c14_input) : option c14_class :=
 
 Definition guard_C14 (x : c14_input) : bool :=
   C14_domain x && match finding_class_C14 x with None => true | Some _ => false end.
+
+(* ------------------------------------------------------------------ what is proved *)
+(* the tree a pair's RewriteAtQuery runs on: the current output tree, possibly with defaults attached by
+   find_in_ast and one annotation reassigned by the wrap step - both only on nodes shared with the input tree *)
+Definition is_mid (o o_mid : amodule) : Prop :=
+  exists t0, (t0 = o \/ exists log, t0 = apply_dlog log o)
+             /\ (o_mid = t0 \/ exists i e, o_mid = set_ann_by_id i e t0).
+
+(* one (input, output) pair applied: the input address was found, and the output tree changed by exactly one
+   first-match replacement at its output address *)
+Inductive pair_step (env : sp_env) (ev : bool) (w : option str) (last : bool)
+  : (str * str * evald) -> amodule -> amodule -> amodule -> amodule -> Prop :=
+| ps_intro : forall ip op e i o o1 i1 o_mid repl st p,
+    sync_property env ev ip i e op w o last = Ok (o1, i1) ->
+    (ev = false -> exists n log, find_in_ast_log (dotted ip) i = Ok (Some n, log)) ->
+    is_mid o o_mid ->
+    rewrite_visit (dotted op) repl o_mid = Ok (NMod o1, st) -> rw_replaced st = true ->
+    first_hit_list (dotted op) o_mid = Some p ->
+    replaced_first (dotted op) (rw_node st) p o_mid o1 ->
+    pair_step env ev w last (ip, op, e) i o o1 i1.
+
+Inductive pair_steps (env : sp_env) (ev : bool) (w : option str)
+  : list (str * str * evald) -> amodule -> amodule -> amodule -> amodule -> Prop :=
+| pss_nil : forall i o, pair_steps env ev w [] i o o i
+| pss_cons : forall pr rest i o o1 i1 o' i',
+    pair_step env ev w (is_empty rest) pr i o o1 i1 -> pair_steps env ev w rest i1 o1 o' i' ->
+    pair_steps env ev w (pr :: rest) i o o' i'.
+
+(* any number of pairs, no guard: whatever is written is written once, to the output file, after every pair was
+   applied, each pair being one first-match replacement *)
+Definition C14_frame (x : c14_input) : Prop :=
+  forall f tree, In (EvWrite f tree) (fst (run_C14 x)) ->
+    f = FOutput /\ run_C14 x = ([EvWrite FOutput tree], Ok tt)
+    /\ exists i0 o0 i', ast_parse [1] (ci_in x) = Ok i0 /\ ast_parse [0] (ci_out x) = Ok o0
+       /\ List.length (ci_ips x) = List.length (ci_ops x)
+       /\ pair_steps (ci_env x) (ci_eval x) (ci_wrap x) (zip3 (ci_ips x) (ci_ops x) (ci_evs x)) i0 o0 tree i'.
+
+(* inside the guard (one pair, addresses in the regions C15 covers): an address that does not resolve gives an
+   error and no write; a write replaces exactly the node at the resolved position of the output address, and then
+   the input address resolves too *)
+Definition C14_holds (x : c14_input) : Prop :=
+  match ci_ips x, ci_ops x with
+  | [ip], [op] =>
+    let im := remitted (ci_in x) in
+    let om := remitted (ci_out x) in
+    ((resolve_at [0] (dotted op) om = None \/ (ci_eval x = false /\ resolve_at [1] (dotted ip) im = None)) ->
+     exists e, run_C14 x = ([], Err e))
+    /\ (forall tree, fst (run_C14 x) = [EvWrite FOutput tree] ->
+         exists p n o_mid st,
+           resolve_at [0] (dotted op) om = Some (p, n)
+           /\ is_mid (annotate_at [0] om) o_mid
+           /\ replaced_first (dotted op) (rw_node st) p o_mid tree
+           /\ (ci_eval x = false -> exists r, resolve_at [1] (dotted ip) im = Some r))
+  | _, _ => True
+  end.
 
 (* does the run leave the modelled fragment (then the harness skips the point) *)
 Definition c14_unmodelled (x : c14_input) : bool :=
